@@ -12,10 +12,8 @@
   C11:new-object-keeps-oid-after-failed-store) and of `_abort`/`tpc_abort` (finding
   C11:stored-new-object-ghostified-on-abort: a NEW object that was already stored when the commit fails
   is no longer invalidated before it is disowned, it keeps its state).  The clause "can be added again
-  later" of `failed_commit_outcome` is proved in two parts: the object belongs to no database (full
-  strength), and it still has its state as long as the model's instrumentation flag `d2` (raised when a
-  ghost is disowned) is down (`failed_commit_keeps_state_partial`; the unconditional version needs one
-  more invariant and is still to be proved); `stored_new_object_keeps_state` runs the program of the
+  later" of `failed_commit_outcome` holds at full strength: the object belongs to no database and still
+  has its state (`failed_commit_keeps_state`); `stored_new_object_keeps_state` runs the program of the
   former finding.
 -/
 import Proofs.ConnC11
@@ -128,32 +126,19 @@ theorem failed_commit_outcome (bound : Nat) (s : State) (hr : Reachable bound s)
     obtain ⟨h1, h2, h3, h4⟩ := rv2.fresh j hj
     exact ⟨h1, h2, h3, fun hg => ⟨(h4 hg).1, (h4 hg).2.1⟩⟩
 
-/- Full statement of the last clause of the property for failed commits ("every object that was new in
-   the transaction … can be added again later"), NOT provable for the code as it is (finding
-   C11:stored-new-object-ghostified-on-abort, open):
-
-     theorem failed_commit_keeps_state … (hout : (txnCommit bound s f).2 = .failed e) :
-       ∀ j, (∀ k, s.cache.get k ≠ some j) → (s.objs j).status ≠ .ghost →
-         ((txnCommit bound s f).1.objs j).status ≠ .ghost
-
-   Proved instead: the same under the hypothesis that the run did not go through the defect situation
-   (the instrumentation flag `d2`, raised exactly when an object is disowned while it is a ghost), plus
-   the precise description of the exception (the object was stored: it was in the cache when the failure
-   was noticed), and the witness below. -/
-
-/-- **failed_commit_keeps_state_partial.**  After a failed commit a new object still has its state (it is
-    not a ghost, payload and references as before: `failed_commit_outcome`) unless the defect flag was
-    raised by this commit. -/
-theorem failed_commit_keeps_state_partial (bound : Nat) (s : State) (hr : Reachable bound s)
-    (hop : s.opened = true) (f : Fail) (e : Err) (hout : (txnCommit bound s f).2 = .failed e)
-    (hd2 : (txnCommit bound s f).1.d2 = false) :
+/-- **failed_commit_keeps_state.**  After a failed commit — whatever the failure, at whatever phase — an
+    object that was not in the database before the transaction and had its state still has it (it is not a
+    ghost; payload and references as before: `failed_commit_outcome`), so it can be added again later.
+    (Full strength since the repair of C11:stored-new-object-ghostified-on-abort: the cleanup never
+    invalidates an object that is cached under an oid of `_creating`, it disowns it with its state.) -/
+theorem failed_commit_keeps_state (bound : Nat) (s : State) (hr : Reachable bound s)
+    (hop : s.opened = true) (f : Fail) (e : Err) (hout : (txnCommit bound s f).2 = .failed e) :
     ∀ j, (∀ k, s.cache.get k ≠ some j) → (s.objs j).status ≠ .ghost →
       ((txnCommit bound s f).1.objs j).status ≠ .ghost := by
   obtain ⟨s0, t, e1, e2, _, _, _, _, _, rv⟩ := txnCommit_failed (reachable_good hr) hop bound f e hout
-  intro j hj hg0 hg
+  intro j hj hg0
   obtain ⟨_, _, _, h4⟩ := rv.fresh j (by rw [e2]; exact hj)
-  have := ((h4 (by rw [e1]; exact hg0)).2.2 hg).1
-  rw [hd2] at this; cases this
+  exact (h4 (by rw [e1]; exact hg0)).2.2
 
 /-- the program of the finding: another connection commits the root, this one adds object 1 explicitly
     (payload 5), links it from the root and commits: conflict on the root after object 1 was stored -/
